@@ -1174,7 +1174,7 @@ assert "does not judge them either" not in PROPS["C14"]["partial_gap"]
 PROPS["C02"]["also"] = [("C06", "views"), ("C06", "rotation")]
 PROPS["C13"]["also"] = list(PROPS["C13"].get("also", [])) + [("C05", "panic")]
 
-# ---- ORACLE SOUNDNESS of the FDL monitors (agent fdlx; Proofs/FdlOracleSound1..7.v) --------------------------------
+# ---- ORACLE SOUNDNESS of the FDL monitors (agent fdlx; Proofs/FdlOracleSound1..8.v) --------------------------------
 # "The executable monitors of Model/FdlOracle.v that run on the implementation's transcripts never reject a transcript
 #  of the MODEL."  Texts only: what is proved per property, and which rules are NOT yet covered.
 _FDL_OS = ('ORACLE SOUNDNESS (Proofs/FdlOracleSound*.v): model_transcript = the event list the driver would build from a run of the model '
@@ -1191,7 +1191,8 @@ PROPS["C05"]["level_note"] += (' ' + _FDL_OS + 'C05_oracle_sound: neither R05_pa
     'the transcript with the excused panic).')
 PROPS["C06"]["level_note"] += (' ' + _FDL_OS + 'C06_oracle_sound_partial: R06_no_claim_after_timeout is never reported on a model transcript (all input '
     'histories, the O9 corner of C01 included).')
-PROPS["C06"]["partial_gap"] += ' Oracle soundness: R06_no_backoff is NOT yet covered.'
+PROPS["C06"]["level_note"] += (' C06_oracle_sound (FdlOracleSound8): no rule of C06 at all - also R06_no_backoff, the executable form of C06_backoff - is '
+    'reported on a model transcript (all input histories, app_sends_data).')
 PROPS["C13"]["level_note"] += (' ' + _FDL_OS + 'C13_oracle_sound: no rule of C13 (low_prio_after_hold_time in both forms, second_cycle_after_hold_time, '
     'high_prio_inside_hold_time) is reported, for ALL input histories and applications that hand data telegrams to the PHY (app_sends_data). The proof '
     'found one false alarm, repaired in the monitor: after the self-re-creation (second address collision) last_token_time is 0 again, the monitor '
